@@ -197,6 +197,10 @@ func (s *ServerDnsListener) onMessage(m *dns.Msg, remoteAddr net.Addr) (*dns.Msg
 	request := commands.ComposeRequest(m, s.DefaultSerializer.Domain)
 	for _, c := range commands.Commands {
 		if c.IsOfType(request) {
+			if c.NewRequest == nil {
+				// Reserved command (login, multi-query, error): there is no request to decode
+				break
+			}
 			var err error
 			_, userId, err = commands.DecodeRequestHeader(c, request)
 			if err != nil {
